@@ -322,6 +322,64 @@ func genSrvSession(repo string) (string, error) {
 		}
 		fmt.Fprintf(&sb, "/-- uasc.%s: the RSA type assertion on the certificate's key is checked (or absent) -/\ndef %s : Bool := %v\n", m.fn, m.lean, checked)
 	}
+	// FindServers: `….Endpoints()[0]` (or `x[0]`) without any len() test
+	{
+		fs, ok := methods["DiscoveryService.FindServers"]
+		if !ok {
+			return "", fmt.Errorf("FindServers not found")
+		}
+		idx0, hasLen := false, false
+		ast.Inspect(fs.decl.Body, func(n ast.Node) bool {
+			switch x := n.(type) {
+			case *ast.IndexExpr:
+				if lit, ok := x.Index.(*ast.BasicLit); ok && lit.Value == "0" {
+					idx0 = true
+				}
+			case *ast.CallExpr:
+				if id, ok := x.Fun.(*ast.Ident); ok && id.Name == "len" {
+					hasLen = true
+				}
+			}
+			return true
+		})
+		fmt.Fprintf(&sb, "/-- FindServers does not index the endpoint list without testing its length -/\ndef findServersChecksEndpoints : Bool := %v\n", !idx0 || hasLen)
+	}
+	// Node.DataType: is every `.(*ua.ExpandedNodeID)` assertion of the comma-ok form?
+	{
+		dt, ok := methods["Node.DataType"]
+		if !ok {
+			return "", fmt.Errorf("Node.DataType not found")
+		}
+		checked := true
+		okForm := map[ast.Expr]bool{}
+		ast.Inspect(dt.decl.Body, func(n ast.Node) bool {
+			if as, ok := n.(*ast.AssignStmt); ok && len(as.Lhs) == 2 && len(as.Rhs) == 1 {
+				okForm[as.Rhs[0]] = true
+			}
+			return true
+		})
+		ast.Inspect(dt.decl.Body, func(n ast.Node) bool {
+			if ta, ok := n.(*ast.TypeAssertExpr); ok && ta.Type != nil && !okForm[ta] {
+				checked = false
+			}
+			return true
+		})
+		fmt.Fprintf(&sb, "/-- Node.DataType: the type assertion on the DataType attribute's value is checked -/\ndef dataTypeAssertionChecked : Bool := %v\n", checked)
+	}
+	// CreateSubscription: is the requested publishing interval revised by a helper before it is used?
+	{
+		revised := false
+		ast.Inspect(cs.decl.Body, func(n ast.Node) bool {
+			if c, ok := n.(*ast.CallExpr); ok {
+				name := strings.ToLower(types.ExprString(c.Fun))
+				if strings.Contains(name, "revise") && strings.Contains(name, "interval") {
+					revised = true
+				}
+			}
+			return true
+		})
+		fmt.Fprintf(&sb, "/-- CreateSubscription passes the requested publishing interval through a revise…Interval helper -/\ndef publishingIntervalRevised : Bool := %v\n", revised)
+	}
 	sb.WriteString("\nend Opcua.Gen.SrvSession\n")
 	return strings.ReplaceAll(sb.String(), ",\n]", "\n]"), nil
 }
